@@ -141,3 +141,38 @@ def raises(a, b=2):
   if a > b:
     raise KeyError(a)
   return b
+
+
+class WeightBase(object):
+
+  def __init__(self, own):
+    self.own = own
+
+  def weight(self):
+    LOG.append(('base-weight', self.own))
+    return self.own
+
+
+class WeightNode(WeightBase):
+  """Zero-argument super() in a method that calls the same method on ANOTHER instance:
+  several converted frames of the method are live at once."""
+
+  def __init__(self, own, child=None):
+    super().__init__(own)
+    self.child = child
+
+  def weight(self):
+    w = super().weight()
+    if self.child is not None:
+      w = w + self.child.weight()
+    return w
+
+
+CHAIN = WeightNode(1, WeightNode(10, WeightNode(100)))
+
+
+def chain_total(node, k):
+  LOG.append(('chain_total', k))
+  if k > 0:
+    return node.weight() + k
+  return node.weight()
